@@ -1,0 +1,68 @@
+//go:build verif
+
+package transport
+
+import (
+	"sync/atomic"
+	"time"
+
+	"github.com/lni/dragonboat/v4/config"
+	"github.com/lni/dragonboat/v4/internal/registry"
+	"github.com/lni/dragonboat/v4/internal/server"
+	"github.com/lni/dragonboat/v4/internal/settings"
+	"github.com/lni/dragonboat/v4/internal/vfs"
+	pb "github.com/lni/dragonboat/v4/raftpb"
+)
+
+// VerifR17Sink counts what the transport reports to the NodeHost
+// (verification hook, add-only, compiled only with -tags verif).
+type VerifR17Sink struct {
+	Unreachable uint64
+	Failed      uint64
+	Established uint64
+}
+
+func (s *VerifR17Sink) HandleMessageBatch(pb.MessageBatch) (uint64, uint64) { return 0, 0 }
+func (s *VerifR17Sink) HandleUnreachable(uint64, uint64)                    { atomic.AddUint64(&s.Unreachable, 1) }
+func (s *VerifR17Sink) HandleSnapshotStatus(uint64, uint64, bool)           {}
+func (s *VerifR17Sink) HandleSnapshot(uint64, uint64, uint64)               {}
+func (s *VerifR17Sink) ConnectionEstablished(string, bool)                  { atomic.AddUint64(&s.Established, 1) }
+func (s *VerifR17Sink) ConnectionFailed(string, bool)                       { atomic.AddUint64(&s.Failed, 1) }
+
+// VerifR17SetIdleTimeout sets the idle timeout of the per target send worker
+// and returns the previous value.
+func VerifR17SetIdleTimeout(d time.Duration) time.Duration {
+	old := idleTimeout
+	idleTimeout = d
+	return old
+}
+
+// VerifR17QueueCount is the number of registered per target send queues.
+func VerifR17QueueCount(t *Transport) int {
+	t.mu.Lock()
+	defer t.mu.Unlock()
+	return len(t.mu.queues)
+}
+
+// VerifR17NewTransport builds a Transport the way NodeHost does, over an in
+// memory file system, with the transport module of c.Expert.TransportFactory.
+func VerifR17NewTransport(c config.NodeHostConfig,
+	sink *VerifR17Sink) (*Transport, *registry.Registry, func(), error) {
+	fs := vfs.NewMemFS()
+	env, err := server.NewEnv(c, fs)
+	if err != nil {
+		return nil, nil, nil, err
+	}
+	nodes := registry.NewNodeRegistry(settings.Soft.StreamConnections, nil)
+	dir := func(shardID uint64, replicaID uint64) string { return "/r17t-snapshots" }
+	t, err := NewTransport(c, sink, env, nodes, dir, sink, fs)
+	if err != nil {
+		_ = env.Close()
+		return nil, nil, nil, err
+	}
+	closer := func() {
+		_ = t.Close()
+		_ = env.Close()
+	}
+	return t, nodes, closer, nil
+}
